@@ -363,6 +363,28 @@ fn inputs(prop: &str, seed: u64, w: u32, thorough: bool) -> Inputs {
     let mut r = Rng::new(seed ^ ((w as u64) << 32) ^ (prop.as_bytes()[2] as u64 * 131 + prop.as_bytes()[1] as u64));
     let mut i = Inputs::default();
     let bnd = gen::boundary(n);
+    if thorough && w == 8 {
+        // thorough tier: the 8-bit types completely
+        let all: Vec<B> = (0..=255u8).map(|v| vec![v]).collect();
+        match prop {
+            "C05" => {
+                let mut amts: Vec<u32> = (0..=17).collect();
+                amts.extend([31, 32, 33, 63, 64, 65, 255, 256, 257, 1 << 16, 1 << 31, u32::MAX - 1, u32::MAX]);
+                i.shifts = all.iter().flat_map(|a| amts.clone().into_iter().map(move |k| (a.clone(), k))).collect();
+            }
+            "C06" => {
+                i.vals = all.clone();
+                i.pairs = all.iter().flat_map(|a| all.iter().map(move |b| (a.clone(), b.clone()))).collect();
+                i.bits = all.iter().flat_map(|a| (0..8u32).map(move |k| (a.clone(), k))).collect();
+            }
+            "C07" => {
+                // every pair, with a third operand that makes every ordering of (a, b, c) occur
+                i.triples = all.iter().flat_map(|a| all.iter().map(move |b| (a.clone(), b.clone(), vec![a[0].wrapping_mul(5) ^ b[0].rotate_left(3)]))).collect();
+            }
+            _ => panic!("unknown property"),
+        }
+        return i;
+    }
     match prop {
         "C05" => {
             let amts = shift_amounts(&mut r, w, thorough);
